@@ -149,20 +149,12 @@ func (st *StateTable) Get(SrcIP, DestIP net.IP, SrcPort, DestPort uint16) *State
 			continue
 		}
 
-		if state.SrcPort != SrcPort && state.DestPort != SrcPort {
-			continue
-		}
-
-		if state.DestPort != DestPort && state.SrcPort != DestPort {
+		if state.SrcPort != SrcPort || state.DestPort != DestPort {
 			continue
 		}
 
 		// comparing ipv6 with ipv4 now
-		if !state.SrcIP.Equal(SrcIP) && !state.DestIP.Equal(SrcIP) {
-			continue
-		}
-
-		if !state.DestIP.Equal(DestIP) && !state.SrcIP.Equal(DestIP) {
+		if !state.SrcIP.Equal(SrcIP) || !state.DestIP.Equal(DestIP) {
 			continue
 		}
 
